@@ -103,6 +103,9 @@ def make(rng, shape, json_layer):
     c["start"] = addr
     if rng.random() < 0.5:
         c["data"] = rand_ddata(rng, 0, cls == "node")
+    if rng.random() < 0.3:
+        # the same DictExporter object exported before, and a user hook aborted that export at its k-th node
+        c["prior"] = [rng.randrange(1, atree_size(t) + 1) for _ in range(rng.choice([1, 1, 2]))]
     if json_layer:
         custom = rng.random() < 0.5
         jmax = rng.choice([None, None, 1, 2, h + 1])
@@ -117,6 +120,8 @@ def make(rng, shape, json_layer):
             jk["separators"] = [",", ":"]
         jk["jsonmaxlevel"] = jmax
         jk["customdict"] = custom
+        if rng.random() < 0.3:
+            jk["prior_jsonmax"] = rng.choice([1, 1, 2])      # another JsonExporter exported with this maxlevel before
         c["json"] = jk
         if not custom:
             c["attriter"], c["childiter"], c["dictcls"] = "none", "list", None
